@@ -7,7 +7,7 @@ from ..progen import gen_program, profile
 
 ID = "C03"
 PREFIX = ("c03:",)
-PROFILE = profile(scope=18, cancel=16, catch=12, wait=8, forever=5, sleep=8, group=8, spawn=8, shield=5, ext=3, patterns={'double_cancel': 2, 'sibling_double_cancel': 1, 'self_cancel_host_shielded': 2, '_chance': 30})
+PROFILE = profile(scope=18, cancel=16, catch=12, wait=8, forever=5, sleep=8, group=8, spawn=8, shield=5, ext=3, patterns={'double_cancel': 2, 'sibling_double_cancel': 1, 'self_cancel_host_shielded': 2, 'unshield_from_nested': 2, '_chance': 30})
 RULE = ("Hypothesis-generated task/scope/shield/group programs with blocking operations of several kinds and cancel() "
         "issued by the task itself, siblings, external loop callbacks, deadlines and before entry; non-trivial = some "
         "operation was interrupted after having blocked at least one cycle, or was entered in an already cancelled "
